@@ -204,6 +204,25 @@ def f_gbt(tag):
     return gbx.GeoboxTiles(g, (n * 16, 16))
 
 
+def f_gbt_small(tag):
+    """small tiled GeoBoxes cut regularly or irregularly: values that induce the same partition
+    (a nominal tile larger than the image; regular against listed chunks) are still different values"""
+    from affine import Affine
+
+    import odc.geo.geobox as gbx
+
+    A = Affine(rconst(F(10)), 0.0, rconst(F(0)), 0.0, rconst(F(-10)), rconst(F(0)))
+    ny, nx = Int(f"{tag}_ny", 1, 40), 12
+    g = gbx.GeoBox((ny, nx), A, "epsg:3857")
+    k = Int(f"{tag}_cut", 0, 3)
+    k = k.__index__() if isinstance(k, symx.Sym) else k
+    if k < 3:
+        return gbx.GeoboxTiles(g, ((16, 32, 48)[k], 16))
+    # listed chunks: 16 + the rest (needs more than 16 rows)
+    assume(ny > 16)
+    return gbx.GeoboxTiles(g, ((16, ny - 16), (nx,)))
+
+
 def f_gbt_var(tag):
     """tiled GeoBox over a VARIABLE tiling: the token must carry both offset arrays"""
     from affine import Affine
@@ -271,6 +290,7 @@ TYPES = {
     "GeoBox[turned]": (f_gbox_turned, True, True),
     "GeoboxTiles": (f_gbt, False, True),
     "GeoboxTiles[variable]": (f_gbt_var, False, True),
+    "GeoboxTiles[small]": (f_gbt_small, False, True),
     "Bin1D": (f_bin, False, False),
     "GridSpec": (f_gridspec, False, False),
     "GCPGeoBox": (f_gcp, True, True),
@@ -753,6 +773,10 @@ def _gj(kind, P):
         return {"type": "LineString", "coordinates": [P[0], P[1], P[2]]}
     if kind == "Polygon":
         return {"type": "Polygon", "coordinates": [ring, hole]}
+    if kind == "LinearRing":  # what polygon.exterior / .interiors[i] are
+        return {"type": "LinearRing", "coordinates": ring}
+    if kind == "CollectionWithRing":
+        return {"type": "GeometryCollection", "geometries": [_gj("Point", P), _gj("LinearRing", P)]}
     if kind == "MultiPoint":
         return {"type": "MultiPoint", "coordinates": [P[0], P[1]]}
     if kind == "MultiLineString":
@@ -977,10 +1001,10 @@ OBLIGATIONS = [
     Ob("E8_crs_string_history", h_crs_string_history, fixed(), descr="str/hash/token of CRS(spec) do not depend on which other routes (pyproj object, WKT text, authority string of the same CRS) were used before",
        functions=("odc.geo.crs._make_crs_key", "odc.geo.crs._make_crs", "odc.geo.crs.CRS.__init__", "odc.geo.crs.CRS.__hash__"),
        bounds="one CRS definition, three construction routes, histories of 0-2 earlier constructions (symbolic choice)", stubs=("pyproj CRS replaced by an object that hashes like its WKT text and equals any specification of the same definition (pyproj's contract); the replay uses pyproj itself",), setup=setup),
-    Ob("E9_geometry_state", h_geometry_state, fixed(*[dict(kind=k, with_z=z) for k in ("Point", "LineString", "Polygon", "MultiPoint", "MultiLineString", "MultiPolygon", "GeometryCollection", "NestedCollection") for z in (False, True)]),
+    Ob("E9_geometry_state", h_geometry_state, fixed(*[dict(kind=k, with_z=z) for k in ("Point", "LineString", "Polygon", "LinearRing", "MultiPoint", "MultiLineString", "MultiPolygon", "GeometryCollection", "NestedCollection", "CollectionWithRing") for z in (False, True)]),
        descr="Geometry pickle state (GeoJSON) of every geometry kind, collections included, is rebuilt into the same structure with the same x, y (a z ordinate is dropped: the class is 2-D by its docstring)",
        functions=("odc.geo.geom.Geometry.__setstate__", "odc.geo.geom.Geometry.__init__", "odc.geo.geom._geojson_to_shapely", "odc.geo.geom.force_2d"),
-       bounds="8 geometry kinds incl. polygon with a hole and nested collections; 6 symbolic points, 2-D or 3-D", stubs=("shapely.geometry.shape recorded (the replay pickles a real Geometry)",), setup=setup),
+       bounds="10 geometry kinds incl. polygon with a hole, a bare ring, nested collections; 6 symbolic points, 2-D or 3-D", stubs=("shapely.geometry.shape recorded (the replay pickles a real Geometry)",), setup=setup),
     Ob("E2_transitive", h_triple, fixed(*[dict(tname=t) for t in ALL]), descr="per type: == transitive over three values", functions=tuple(f"{t}.__eq__" for t in ALL),
        bounds="three values per type", setup=setup, timeout_ms=20000),
     Ob("E3_other_types", h_other_type, fixed(*[dict(tname=t) for t in ALL if t not in ("Shape2d", "BoundingBox")]), descr="never equal to None / int / str / unrelated tuple",
